@@ -169,12 +169,10 @@ def run(ctx: Context) -> None:
             break
         it.stmt(s)
     # the two moment arrays are what the method hands to _string_moment, whatever the locals are called
-    fo_name, so_name = "first_order_moments", "second_order_moments"
+    fo = so = None
     for c_ in ast.walk(gx.node):
-        if isinstance(c_, ast.Call) and isinstance(c_.func, ast.Attribute) and c_.func.attr == "_string_moment" and len(c_.args) >= 2 \
-                and isinstance(c_.args[0], ast.Name) and isinstance(c_.args[1], ast.Name):
-            fo_name, so_name = c_.args[0].id, c_.args[1].id
-    fo, so = it.env.get(fo_name), it.env.get(so_name)
+        if isinstance(c_, ast.Call) and isinstance(c_.func, ast.Attribute) and c_.func.attr == "_string_moment" and len(c_.args) >= 2:
+            fo, so = it.ev(c_.args[0]), it.ev(c_.args[1])
     ok = fo is not None and so is not None and fo.kind == "num" and so.kind == "num" and fo.deg == HALF and so.deg == ONE and len(an.issues) == n_issues
     ctx.obligation("C14", f"{cls.qualname}.get_xp_string_moment|first 1/2, second 1", ok, f"{ctx.relpath(gx.file)}:{gx.line}",
                    first=lfmt(fo.deg) if fo else None, second=lfmt(so.deg) if so else None)
